@@ -948,3 +948,7 @@ mod tests {
         assert_eq!(all_ips, HashSet::from([addr_b]));
     }
 }
+
+#[cfg(feature = "verif-hooks")]
+#[path = "verif/cache.rs"]
+pub mod verif_hooks;
